@@ -217,6 +217,57 @@ func zzC17_load() {
 	vReach("C17_load")
 }
 
+// zzC17_apps: up to N application declarations (id from {4, 77}, type "", "auth" or "acct": case-split),
+// each loaded as a further dictionary; after every load App(id) and App(id, type) are compared with
+// the reference (an application declared without a type serves every type) and with the previous
+// answer: a resolvable application id never becomes unresolvable.
+func zzC17_apps() {
+	p, err := dict.NewParser()
+	vAssume(err == nil)
+	types := [3]string{"", "auth", "acct"}
+	qID := vPick32("qid", 4, 77)
+	qTyp := types[vChoice("qtyp", 3)]
+	type decl struct {
+		id  uint32
+		typ string
+	}
+	var decls []decl
+	prev := false
+	n := vLen("decls", 1, vParam("N", 3))
+	for i := 0; i < n; i++ {
+		d := decl{vPick32("id", 4, 77), types[vChoice("typ", 3)]}
+		decls = append(decls, d)
+		lerr := p.Load(vDictFile(&dict.File{App: []*dict.App{{ID: d.id, Type: d.typ, Name: "app"}}}))
+		vAssert(lerr == nil, "an application declaration loads")
+		want := false
+		for _, x := range decls {
+			if x.id == qID && (qTyp == "" || x.typ == qTyp || x.typ == "") {
+				want = true
+			}
+		}
+		var ra *dict.App
+		var aerr error
+		if qTyp == "" {
+			ra, aerr = p.App(qID)
+		} else {
+			ra, aerr = p.App(qID, qTyp)
+		}
+		vObserve("resolved", zzB2U(aerr == nil))
+		if aerr == nil {
+			vAssert(ra != nil && ra.ID == qID, "a resolved application carries the requested id")
+			vAssert(want, "an application resolves only if a loaded dictionary declares it")
+		}
+		if want {
+			vAssert(aerr == nil, "a declared application id resolves for its type (an untyped declaration serves every type), whatever was loaded afterwards")
+		}
+		if prev {
+			vAssert(aerr == nil, "loading a further dictionary never makes a resolvable application id unresolvable")
+		}
+		prev = aerr == nil
+	}
+	vReach("C17_apps")
+}
+
 // zzC17_embedded: the embedded dictionaries. A symbolic (code, vendor | wildcard) query for every
 // loaded application id and for an unrelated one, resolved by the real indexes, against the reference
 // resolver over the public list of applications in load order: every key present and its
